@@ -69,12 +69,19 @@ func LoadKnown(path string) (*KnownFile, error) {
 }
 
 // Floor returns an Incomplete obligation if got < min.
+// Floor guards a rule against passing vacuously: it fails when the rule finds markedly fewer instances than were
+// confirmed by hand on the reference tree. The threshold is two thirds of that count (a restructuring that merges a few
+// copy-pasted instances into a helper is not a reason to distrust the rule; losing a third of them is).
 func Floor(rule string, props []string, what string, got, min int) []Obligation {
-	if got >= min {
+	thr := (2*min + 2) / 3
+	if thr < 1 {
+		thr = 1
+	}
+	if got >= thr {
 		return nil
 	}
 	return []Obligation{{Rule: rule, Key: rule + ":floor:" + what, Props: props, Status: Incomplete,
-		Detail: fmt.Sprintf("rule matched %d %s, fewer than the %d confirmed by hand on the reference tree: the rule would pass vacuously", got, what, min)}}
+		Detail: fmt.Sprintf("rule matched %d %s, fewer than two thirds of the %d confirmed by hand on the reference tree (%d): the rule would pass vacuously", got, what, min, thr)}}
 }
 
 // Evidence mirrors EVIDENCE.schema.json.
